@@ -86,6 +86,7 @@ fn run_case(cap: u64, ops: &[Op]) -> Outcome {
     let mut stamp: BTreeMap<u64, u64> = BTreeMap::new(); let mut hstamp: BTreeMap<u64, u64> = BTreeMap::new(); let mut tick = 0u64;
     for op in ops {
         if slow { std::thread::sleep(std::time::Duration::from_millis(12)); }
+        let files_before = if matches!(op, Op::Get(_)) { Some(disk_files(&root).0) } else { None };
         let c = cache.as_mut().unwrap();
         let before_len = c.len(); tick += 1;
         let mut extra = String::new();
@@ -142,6 +143,9 @@ fn run_case(cap: u64, ops: &[Op]) -> Outcome {
         if c.len() < before_len && !matches!(op, Op::Rm(_) | Op::Reopen) { out.evictions += 1; }
         // ---- observation
         let (files, ntemps, other) = disk_files(&root);
+        // C15 / C07: a lookup is not a store — it never creates, removes or resizes an entry file and never evicts
+        if let Some(fb) = &files_before { if *fb != files || c.len() < before_len {
+            out.fails.push(Fail { kind: "lookup_changed_entries".into(), detail: format!("{} changed the entry files from {:?} to {:?} (index {} -> {} entries)", op_str(op), fb, files, before_len, c.len()) }); } }
         let cont: String = (0..NKEYS).map(|k| if c.contains_key(keyname(k)) { '1' } else { '0' }).collect();
         let fl: Vec<String> = files.iter().map(|(k, n)| format!("{}:{}", k, n)).collect();
         let obs = format!("size={} len={} contains={} files={}", c.size(), c.len(), cont, fl.join(","));
